@@ -4,25 +4,27 @@ import json, os
 V = os.path.dirname(os.path.dirname(os.path.abspath(__file__)))
 ALL = [f'C{i:02d}' for i in range(1, 21)]
 
-CHECKS = {
- 'C04': dict(
-    text='Theorems (Coq, unbounded): the emitted map is a function of the multiset of entries and strictly ascending in '
-         '(len, bytes) of the encoded key (C04_dict_canonical); the bytes of a multi-asset/Value depend only on content '
-         '(C04_bundle_canonical, C04_value_canonical, C04_history over arbitrary operation histories); no zero/empty entries; '
-         'bare integer without assets. Model tied to the code by correspondence (model bytes = to_cbor bytes) and the property '
-         'oracle (Coq decoder + canonical-form check) is evaluated on the implementation bytes.',
-    note='Trusted: Coq kernel+vm_compute; hand model Value.v/Cbor.v validated by differential runs; generator; driver. No axioms.',
-    technique='Coq proof (sorting uniqueness, permutation, content abstraction) + model/implementation correspondence', ref='C04'),
- 'C05': dict(
-    text='Theorems (Coq, all integers, all bundles): +/- are exact per-asset sums/differences with normalised results; ==, <=, < are '
-         'the component-wise relations; filter spec; (a+b)-b=a; frame theorems over a two-level store model: pure operators leave '
-         'all existing objects untouched, += changes only the left operand to the pure sum (also under aliasing). Model tied to '
-         'the code by exact correspondence on random aliasing programs.',
-    note='Trusted: Coq kernel+vm_compute; hand model Value.v/ValueHeap.v validated by differential runs; generator; driver. No axioms.',
-    technique='Coq proof (induction over dict folds, content abstraction, store frame) + correspondence', ref='C05'),
-}
+import importlib, sys
+sys.path.insert(0, os.path.join(V, 'tools'))
+
+def collect():
+    checks = {}
+    for pid in ALL:
+        path = os.path.join(V, 'tools', 'props', pid.lower() + '.py')
+        if not os.path.exists(path):
+            continue
+        mod = importlib.import_module('props.' + pid.lower())
+        m = getattr(mod, 'MANIFEST', None)
+        if m and m.get('claimed', True):
+            checks[pid] = m
+        elif m:
+            NA[pid] = m.get('reason', 'not claimed')
+    return checks
+
+NA = {}
 
 def main():
+    CHECKS = collect()
     checks = []
     for pid, c in sorted(CHECKS.items()):
         checks.append({
@@ -51,6 +53,5 @@ def main():
     }
     json.dump(m, open(os.path.join(V, 'MANIFEST.json'), 'w'), indent=1)
 
-NA = {}
 if __name__ == '__main__':
     main()
